@@ -8,19 +8,15 @@ THEOREMS = [
              "contexts/routes of the state before are a prefix of those after; no record is removed or moved; id, "
              "route, ctxs.in and prev of every existing record are unchanged; holds for calls that raise too"},
     {"name": "C18_append_only_step", "strength": "F", "text": "the same for a single API call"},
-    {"name": "C18b_decided_record_frozen", "strength": "F",
-     "text": "for every evaluator, state and history of API calls other than persist (reruns, late, duplicate and "
-             "malformed events included; only an internal retry event injected from outside is excluded): a record whose "
-             "status is completed and that has no retries left keeps id, route, ctxs.in, prev, status, next (the "
-             "decisions), its published context index and its retry record; only the terminal flag may change"},
-    {"name": "C18b_decided_record_frozen_step/_history, C18b_safe_unfold", "strength": "P",
-     "text": "the same for any retry budget through every operation that is not a further event addressed to that very "
-             "record while retries are left (op_safe, spelled out by C18b_safe_unfold): one completion report per attempt "
-             "-- the provider protocol -- is exactly what is needed"},
-    {"name": "C18b_decided_record_not_frozen_with_retries_left", "strength": "R",
-     "text": "witness that the hypothesis is needed: a duplicate completion report on a decided record with retries left "
-             "re-evaluates the retry condition and can reopen and rewrite the record (same on the engine; outside the "
-             "provider protocol, so not a violation of C18 as quantified)"},
+    {"name": "C18b_decided_record_frozen_always / C18b_decided_record_frozen_step_always (props/C18b.v)", "strength": "F",
+     "text": "for every evaluator, state and history of API calls other than persist (reruns, late, duplicate and malformed "
+             "events included; only an internal retry event injected from outside is excluded): a record whose status is "
+             "completed keeps id, route, ctxs.in, prev, status, next (the decisions), its published context index and its retry "
+             "record -- whatever its retry budget; only the terminal flag may change.  (Before repair D33 this needed 'no "
+             "retries left': a late report re-evaluated the retry; the former refuting witness is now "
+             "C18b_decided_record_kept_with_retries_left)"},
+    {"name": "C18b_w_injected_retry_event_reopens", "strength": "R",
+     "text": "the remaining exclusion is needed: the internal retry event sent from outside reopens a decided record"},
     {"name": "C18b_retry_call_decides_nothing / _retry_branch_decides_nothing / _enters_retrying_only_by_retry_event",
      "strength": "F", "text": "a retried attempt is reopened before any transition is decided: the call that retries "
                               "changes no record's next/out and appends no context snapshot, also when it raises"},
